@@ -119,11 +119,30 @@ PLANS = {
                 "definite while some variable is unavailable",
         "sample": sample_try, "assumptions": EVAL_ASSUME,
     },
+    "C12": {
+        "mc": {"quick": [{"module": "MCEvents", "cfg": "cfg/MCEvents.quick.cfg"}],
+               "thorough": [{"module": "MCEvents", "cfg": "cfg/MCEvents.thorough.cfg", "timeout": 3400}]},
+        "drive": {"quick": [{"args": ["events", "-exh", "1", "-exhmax", "150", "-n", "700", "-depth", "4",
+                                      "-seed", "{seed}", "-progevery", "6"]}],
+                  "thorough": [{"args": ["events", "-exh", "2", "-exhmax", "5000", "-n", "20000", "-depth", "5",
+                                         "-seed", "{seed}", "-progevery", "40"]}]},
+        "judge": {"module": "JudgeEvents", "cfg": "JudgeEvents.cfg"},
+        "replay_args": ["events", "-n", "0", "-progevery", "1"],
+        "rule": "one evaluation = (source tree, option subset, ReportEvent or Debug, binding, call in {Eval under a consumer that "
+                "copies on receipt / reads a buffered channel after the call / retains events un-copied, TryEval}); judged: "
+                "result and Dump unchanged by events, OP_EXEC of registered operators = the calls the instrumented operators saw, "
+                "every built-in OP_EXEC self-consistent (result = operator(arguments)), application sequence = AppSeq of the "
+                "decompiled tree, LOOP positions strictly increasing, retained LOOP snapshots = copies; non-trivial = at least "
+                "two two-operand applications (the reused argument buffer is overwritten)",
+        "sample": lambda o: {"src": o["src"], "mask": o["on"].get("m"), "mode": o["on"].get("ev"),
+                             "events_seen_by_buffered_reader": (o["runs"][0]["buffered"]["evs"][:6] if o.get("runs") else None)},
+        "assumptions": EVAL_ASSUME,
+    },
 }
 
 ENGINES = [
     {"name": "eval", "path": "spec/ (Values, Operators, Semantics, Optimizer, Layout, Machine, MCEval, MCFold, MCTry, JudgeEval, JudgeTry) + harness/",
-     "serves_properties": ["C01", "C02", "C03", "C04", "C05", "C10"],
+     "serves_properties": ["C01", "C02", "C03", "C04", "C05", "C10", "C12"],
      "kind_free_text": "TLA+ specification of optimizer, layout and the Eval/TryEval stack machines; TLC bounded model checking; "
                        "TLC trace validation of observations recorded by the Go harness from the real code"},
 ]
